@@ -409,6 +409,10 @@ func runC01(c *Ctx) {
 	checkLexListClosure(c, p, "R01.7")
 	checkLexDependents(c, p, "R01.6")
 	checkLexEmoves(c, p, "R01.8")
+	// the rune classes of a state are an exact disjoint partition of what its items expect: the C18 argument
+	r18prefix = "R01.9"
+	rangeSetProof(c, p, 2)
+	r18prefix = "R18"
 	c.Assumptions = append(c.Assumptions,
 		"NOT decided: that the DFA is the subset construction of the patterns (Closure, Next, Emoves, dependentsClosure, set identity are graph algorithms over unbounded item sets) — regular-definition sharing, epsilon moves and state identity are outside this check",
 		"rune classes are an exact partition (C18)")
